@@ -263,6 +263,100 @@ def make_bpki(x):
     return out
 
 
+def structured_checks(x, rnd, tier):
+    """Python-driven part (needs keys the fuzz targets cannot guess): (1) whatever the encoders produce decodes back to the encoded value -
+    CV certificates of all four key lengths without and with the key, bpki containers of all lengths; (2) containers whose *protected* inner
+    structure (PrivateKeyInfo / share inside the belt-kwp envelope) is altered and re-sealed under the right password: rejected, or accepted
+    only if the container is the canonical encoding of what was decoded.  -> (violation messages, evaluations, accepted)"""
+    bad, ev, acc = [], 0, 0
+    sz = x.call("x_cvc_sizeof", ret="z")
+    for dlen in (24, 32, 48, 64):
+        x.reset()
+        try:
+            cert = make_cvc(x, dlen)
+        except Exception as e:
+            bad.append("btokCVCWrap fails for a %d-octet key: %s" % (dlen, e)); continue
+        ev += 2
+        if x.call("btokCVCLen", x.buf(cert), len(cert), ret="z") != len(cert):
+            bad.append("btokCVCLen != length of a certificate produced by btokCVCWrap (key length %d)" % dlen)
+        r = x.call("btokCVCUnwrap", x.zero(sz), x.buf(cert), len(cert), None, 0)
+        if r:
+            bad.append("btokCVCUnwrap (no key) rejects a certificate produced by btokCVCWrap with a %d-octet key: error %d" % (dlen, r))
+    pwd, salt = b"zed", bytes(range(8))
+    for W, U, lens in (("bpkiPrivkeyWrap", "bpkiPrivkeyUnwrap", (24, 32, 48, 64)), ("bpkiShareWrap", "bpkiShareUnwrap", (17, 25, 33))):
+        for ln in lens:
+            x.reset()
+            data = (bytes([3]) if "Share" in W else b"") + bytes((7 * i + ln) % 251 for i in range(ln - (1 if "Share" in W else 0)))
+            cnt = x.zero(8)
+            if x.call(W, None, cnt, None, ln, None, 0, None, 10000):
+                bad.append("%s length query fails (len %d)" % (W, ln)); continue
+            n = int.from_bytes(cnt.read(), "little")
+            o = x.out(n)
+            if x.call(W, o, cnt, x.buf(data), ln, x.buf(pwd), 3, x.buf(salt), 10000):
+                bad.append("%s fails (len %d)" % (W, ln)); continue
+            cont = o.read()
+            ev += 1
+            k = x.out(ln); kl = x.zero(8)
+            r = x.call(U, k, kl, x.buf(cont), n, x.buf(pwd), 3)
+            if r or int.from_bytes(kl.read(), "little") != ln or k.read() != data:
+                bad.append("%s does not return what %s encoded (len %d): error %d" % (U, W, ln, r)); continue
+            # (2) inner structure altered and re-sealed
+            tree = tlv_tree(cont)
+            leaves = []
+
+            def walk(nodes):
+                for nd in nodes:
+                    if nd[1] is None: leaves.append(nd)
+                    else: walk(nd[1])
+            if not tree:
+                bad.append("%s output is not a TLV structure" % W); continue
+            walk(tree)
+            edata = leaves[-1][2]
+            key = x.out(32)
+            if x.call("beltPBKDF2", key, x.buf(pwd), 3, 10000, x.buf(salt), 8):
+                continue
+            inner = x.out(len(edata) - 16)
+            if x.call("beltKWPUnwrap", inner, x.buf(edata), len(edata), None, key, 32):
+                bad.append("the protected part of a %s container does not open with belt-kwp under PBKDF2(pwd)" % W); continue
+            pki = inner.read()
+            for j in range(6 if tier == "quick" else 60):
+                m = bytearray(pki)
+                op = rnd.randrange(6)
+                if op == 0: m += bytes(rnd.randrange(256) for _ in range(rnd.randrange(1, 9)))          # stray octets behind the structure
+                elif op == 1: m = bytearray(resize_nested(m, rnd) or m)
+                elif op == 2 and len(m) > 2 and m[1] < 128: m[1:2] = bytes([0x81, m[1]])               # non-minimal outer length
+                elif op == 3: m[rnd.randrange(len(m))] ^= 1 << rnd.randrange(8)
+                elif op == 4: m = m + m[-1:]
+                else: m[2:2] = b"\x05\x00"
+                m = bytes(m)
+                if m == pki or len(m) < 16:
+                    continue
+                e2 = x.out(len(m) + 16)
+                if x.call("beltKWPWrap", e2, x.buf(m), len(m), None, key, 32):
+                    continue
+                leaves[-1][2] = e2.read()
+                c2 = tlv_encode(tree)
+                leaves[-1][2] = edata
+                ev += 1
+                k2 = x.out(len(m) + 16); kl2 = x.zero(8)
+                r = x.call(U, None, kl2, x.buf(c2), len(c2), x.buf(pwd), 3)
+                if r:
+                    continue
+                ln2 = int.from_bytes(kl2.read(), "little")
+                r = x.call(U, k2, kl2, x.buf(c2), len(c2), x.buf(pwd), 3)
+                if r:
+                    bad.append("%s: length probe accepts, real call returns %d" % (U, r)); continue
+                acc += 1
+                got = k2.read()[:ln2]
+                cnt2 = x.zero(8)
+                ok = x.call(W, None, cnt2, None, ln2, None, 0, None, 10000) == 0
+                o2 = x.out(int.from_bytes(cnt2.read(), "little")) if ok else None
+                if not ok or x.call(W, o2, cnt2, x.buf(got), ln2, x.buf(pwd), 3, x.buf(salt), 10000) or o2.read() != c2:
+                    bad.append("%s accepts a container of %d octets whose protected inner structure was altered (%d -> %d octets) and returns %d octets that %s encodes differently"
+                               " (non-canonical encoding accepted): inner %s" % (U, len(c2), len(pki), len(m), ln2, W, m.hex()))
+    return bad, ev, acc
+
+
 def run_proc(cmd, env=None, timeout=None):
     try:
         p = subprocess.run(cmd, capture_output=True, text=True, errors="replace", env=env, timeout=timeout)
@@ -282,6 +376,15 @@ def main(tier, seed, only=None):
     x = ctx.ex("asan")
     x.reset()
     S, M = seeds_and_mutants(x, rnd, 400 if tier == "quick" else 4000)
+    x.reset()
+    try:
+        st_bad, st_ev, st_acc = structured_checks(x, rnd, tier) if (only is None or "structured" in only) else ([], 0, 0)
+    except Exception as e:
+        if type(e).__name__ != "Crash":
+            raise
+        # the executor died inside a decoder (sanitizer report / library ASSERT) on a structured input
+        st_bad, st_ev, st_acc = ["a decoder crashed on a structured input (re-sealed container / encoder output): %s" % str(e)[:400]], 1, 0
+        x = ctx.ex("asan")
     x.reset()
     env = dict(os.environ, ASAN_OPTIONS="detect_leaks=0:abort_on_error=0:exitcode=77:allocator_may_return_null=1:malloc_limit_mb=512", UBSAN_OPTIONS="halt_on_error=1")
     jobs = []
@@ -361,6 +464,10 @@ def main(tier, seed, only=None):
                 notes.append("%s-%d exited %d: %s" % (name, inst, rc, tail[0][:200]))
         if len(samples) < 6 and S[name]:
             samples.append({"target": name, "seed_input": S[name][0].hex()[:120], "mutant": (M[name][0].hex()[:120] if M[name] else None)})
+    for msg in st_bad:
+        violations.append(("structured", None, msg))
+    stats["structured"] = {"executions": st_ev, "accepted_by_a_decoder": st_acc}
+    total_exec += st_ev
     # regression replay files
     replayed = 0
     for f in sorted(glob.glob(os.path.join(VERIF, "replay", "C08-*.bin"))):
@@ -385,7 +492,7 @@ def main(tier, seed, only=None):
         elif f:
             dst = f
         else:
-            dst = os.path.join(OUT, "replay", "C08-der-exhaustive.txt")
+            dst = os.path.join(OUT, "replay", "C08-%s-%s.txt" % ("der_exhaustive" if name == "der-exhaustive" else name, hashlib.sha256(msg.encode()).hexdigest()[:8]))
             open(dst, "w").write(msg + "\n")
         out_paths.append((dst, name, msg))
     wall = time.time() - t0
@@ -415,6 +522,8 @@ def main(tier, seed, only=None):
 def replay(path):
     d = build_fuzz.build_targets()
     name = os.path.basename(path).split("-")[1]
+    if path.endswith(".txt"):
+        return main("quick", 1, ["structured", "exhaustive"]) != 0       # enumerations / structured checks: a replay is a fresh complete run of them
     env = dict(os.environ, ASAN_OPTIONS="detect_leaks=0:exitcode=77")
     bad = sum(1 for _ in range(3) if run_proc([os.path.join(d, "fz_" + name), path], env=env, timeout=120)[0] != 0)
     return bad == 3
